@@ -18,6 +18,8 @@ pub struct Prop {
     pub quoted: bool,
     /// written as a computed string literal key: `["key"]`
     pub computed: bool,
+    /// written as `[ident]` where a module-level `const ident = "key"` exists
+    pub computed_ident: Option<String>,
     pub kind: Kind,
     pub optional: bool,
     /// member type text (for properties / getters)
@@ -26,6 +28,9 @@ pub struct Prop {
 
 impl Prop {
     fn key_text(&self) -> String {
+        if let Some(id) = &self.computed_ident {
+            return format!("[{id}]");
+        }
         if self.computed {
             format!("[\"{}\"]", self.key)
         } else if self.quoted {
@@ -57,6 +62,7 @@ pub struct Decl {
 }
 
 pub struct TypeGen<'a, 'b> {
+    pub allow_computed_ident: bool,
     pub c: &'a mut Choices<'b>,
     pub decls: Vec<Decl>,
     pub labels: Vec<String>,
@@ -69,6 +75,7 @@ pub struct TypeGen<'a, 'b> {
 impl<'a, 'b> TypeGen<'a, 'b> {
     pub fn new(c: &'a mut Choices<'b>) -> Self {
         TypeGen {
+            allow_computed_ident: false,
             c,
             decls: vec![],
             labels: vec![],
@@ -120,10 +127,27 @@ impl<'a, 'b> TypeGen<'a, 'b> {
         if computed {
             self.label("computed-literal-key");
         }
+        // `[ck]: T` with `const ck = "key"`: the prop is named by the constant's value
+        // (only on request: Pick / Omit / indexed access cannot look through the constant)
+        let computed_ident = if self.allow_computed_ident && kind == Kind::Property && !computed && self.c.chance(1, 3) {
+            let id = self.fresh("ck");
+            self.decls.insert(
+                0,
+                Decl {
+                    text: format!("const {id} = {};", serde_json::to_string(&key).unwrap()),
+                    after: false,
+                },
+            );
+            self.label("computed-identifier-key");
+            Some(id)
+        } else {
+            None
+        };
         Some(Prop {
             key,
             quoted,
             computed,
+            computed_ident,
             kind,
             optional,
             ty,
@@ -597,8 +621,10 @@ impl<'a, 'b> RtGen<'a, 'b> {
                 // array / tuple indexing
                 let inner = self.ty(depth + 1);
                 self.label("array-index");
-                let text = match self.c.pick(5) {
+                let text = match self.c.pick(6) {
                     0 => format!("({})[][number]", inner.text),
+                    // the array type itself in parentheses
+                    5 => format!("(({})[])[number]", inner.text),
                     1 => format!("[{}, {}][0]", paren_if_fn(&inner.text), "boolean"),
                     4 => {
                         // optional tuple element: `T | undefined`
@@ -681,7 +707,50 @@ impl<'a, 'b> RtGen<'a, 'b> {
                     self.decls.push(format!("type {n} = {{ {a_member}; \"b-2\": {}; m(): void }};", b.text));
                 }
                 self.label("property-index");
-                match self.c.pick(4) {
+                match self.c.pick(7) {
+                    4 => RtType {
+                        // parenthesised key
+                        text: format!("{n}[(\"a\")]"),
+                        depth: a.depth + 1,
+                        ..a
+                    },
+                    5 => {
+                        // nested access through a wrapper object
+                        let w = self.fresh("W");
+                        self.decls.push(format!("type {w} = {{ inner: {n}; other: 1 }};"));
+                        self.label("nested-property-index");
+                        RtType {
+                            text: format!("{w}[\"inner\"][\"a\"]"),
+                            depth: a.depth + 2,
+                            ..a
+                        }
+                    }
+                    6 => {
+                        // a member inherited through `extends`: the transform does not look at
+                        // parents here, so only the bounds are demanded (no check is acceptable,
+                        // rejecting an inhabitant is not)
+                        let d = self.fresh("D");
+                        if iface {
+                            self.decls.push(format!("interface {d} extends {n} {{ own: 1 }}"));
+                        } else {
+                            self.decls.push(format!("type {d}Base = {n};\ninterface {d} extends {d}Base {{ own: 1 }}"));
+                        }
+                        self.label("inherited-member-index");
+                        let cs = a.ctors.clone();
+                        let loose = cs.clone().map(|c| {
+                            let mut may = a.loose.as_ref().map(|l| l.1.clone()).unwrap_or(c);
+                            // "*nocheck": giving up the runtime check altogether is acceptable
+                            may.push("*nocheck".into());
+                            (vec![], may)
+                        });
+                        RtType {
+                            text: format!("{d}[\"a\"]"),
+                            ctors: cs,
+                            loose,
+                            inhabitants: a.inhabitants.clone(),
+                            depth: a.depth + 1,
+                        }
+                    }
                     0 => RtType {
                         text: format!("{n}[\"a\"]"),
                         depth: a.depth + 1,
